@@ -1,7 +1,7 @@
 /-
   Model.Blake — crysp/blake.py (classes Blake and Blake2, the module singletons) as total Lean functions,
   after the `fix:` commits (Blake2 byte counter read before the look-ahead; final flag only when the update pads;
-  per-call `outlen`; BLAKE pad-only block of an empty final update counts 0 bits).
+  per-call `outlen`).
 
   Words are `Model.Bits` of the object's word size (what `Poly.e(i)` hands to the arithmetic); a `Poly` of words is
   the list of its coefficients.  Tables, constants, IVs, round counts, rotation amounts and the G call schedule
@@ -118,13 +118,9 @@ def initstate (c : Cfg) (salt : Nat := 0) : State :=
 def digest (c : Cfg) (H : List Bits) : List Nat :=
   (H.flatMap fun h => h.pack true).take c.outlen
 
-/-- the counter `Blake.update` feeds for a yielded block: the pad state's `bitcnt` at that yield, 0 when the piece
-    is empty (its only block is padding) -/
-def counterOf (M : List Nat) (st : PadState) : Nat := if M.length > 0 then st.bitcnt else 0
-
-/-- per-block observables of an update: (block bytes, counter) -/
+/-- per-block observables of an update: (block bytes, counter = the pad state's `bitcnt` at that yield) -/
 def trace (c : Cfg) (s : State) (M : List Nat) (bitlen : Option Nat) (padding : Bool) : List (List Nat × Nat) :=
-  ((Padder.blakeP c.size).iterblocks s.pad M bitlen padding).yields.map fun (B, st) => (B, counterOf M st)
+  ((Padder.blakeP c.size).iterblocks s.pad M bitlen padding).yields.map fun (B, st) => (B, st.bitcnt)
 
 /-- `update(M,bitlen,padding)`: new state and the returned digest (or the exception that ended the generator,
     after the blocks yielded before it were absorbed) -/
@@ -132,7 +128,7 @@ def update (c : Cfg) (s : State) (M : List Nat) (bitlen : Option Nat := none) (p
     State × Except Err (List Nat) :=
   let it := (Padder.blakeP c.size).iterblocks s.pad M bitlen padding
   let H := it.yields.foldl (fun H (y : List Nat × PadState) =>
-    compress c H s.salt (wordsBE c.wsize y.1) (counterOf M y.2)) s.H
+    compress c H s.salt (wordsBE c.wsize y.1) y.2.bitcnt) s.H
   let s' := { s with H := H, pad := it.final }
   match it.err with
   | some e => (s', .error e)
